@@ -6,7 +6,7 @@ from simkit import sessioncheck
 PROPERTY = "C04"
 ENGINE = "session"
 LEVEL = "exploration"
-BUDGET = {"quick": (40000, 45), "thorough": (2500000, 540)}
+BUDGET = {"quick": (100000, 60), "thorough": (2500000, 540)}
 RULE = ("seeded edit histories over a 3-letter name alphabet so that clashes are frequent, plus "
         "renames to None/''/sibling/own name and constructors / new_id with valid, upper-case, "
         "braced, truncated and garbage ids; names/ids monitor after every op. distinct = distinct "
